@@ -161,19 +161,12 @@ def run_pipe(fields):
         return None if s.startswith("N") else s[1:].split("\x01")
 
     try:
-        fa = FileAnonymizer(
-            anon_pwd="p" in flags,
-            anon_ip="a" in flags,
-            salt=salt,
-            sensitive_words=optlist(words),
-            undo_ip_anon="u" in flags,
-            as_numbers=optlist(asnums),
-            reserved_words=optlist(reserved),
-            preserve_prefixes=None if pfx == "-" else _nets(pfx),
-            preserve_networks=None if nets == "-" else _nets(nets),
-            preserve_suffix_v4=int(b4),
-            preserve_suffix_v6=int(b6),
-        )
+        kw = dict(salt=salt, sensitive_words=optlist(words), undo_ip_anon="u" in flags, as_numbers=optlist(asnums), reserved_words=optlist(reserved),
+                  preserve_prefixes=None if pfx == "-" else _nets(pfx), preserve_networks=None if nets == "-" else _nets(nets),
+                  preserve_suffix_v4=int(b4), preserve_suffix_v6=int(b6))
+        # an option that is not given is not passed at all (a library caller relying on the constructor's defaults), rather than passed as None
+        kw = {k: v for k, v in kw.items() if v is not None}
+        fa = FileAnonymizer("p" in flags, "a" in flags, **kw)
     except Exception as e:  # noqa
         return "RAISED:init:" + type(e).__name__
     sink = _Sink()
